@@ -194,9 +194,8 @@ def register(reg):
                 if isinstance(n, _ast.Call) and isinstance(n.func, _ast.Attribute) and n.func.attr in ("eval", "runsource", "exec"):
                     sites.append(fname)
         out.append(("code-evaluation-only-in-execute_command", sites == ["execute_command"], f"eval call sites: {sites}"))
-        # check_host_trust really asks host_is_trusted about the Host header and the configured list
-        src = _ast.unparse(cls.methods["check_host_trust"][-1].body[-1])
-        out.append(("check_host_trust-body", src == "return host_is_trusted(environ.get('HTTP_HOST'), self.trusted_hosts)", src))
+        # (what check_host_trust consults is no longer compared as text: its body is under contract,
+        #  check_host_trust#verify -- a harmless rewrite of the one-liner would have been flagged by the textual comparison)
         return out
 
     # ---- check_host_trust: the body (second contract on the same function): the verdict is host_is_trusted's verdict on
